@@ -69,12 +69,10 @@ def gen_cases(rng, n, kinds):
             svals = [rng.uniform(-cum[si], tot) for _ in range(5)] + [cum[rng.randrange(nf)] - cum[si], -cum[si] - rng.uniform(0.01, 0.2), tot + rng.uniform(0.01, 0.2), 0.0]
             cases.append(dict(kind=kind, pos=[[hx(a), hx(b)] for a, b in pos], si=si, s=[hx(v) for v in svals]))
         elif kind == "equalise":
-            # at most 8 points: numpy.mean of fewer than 8 spacings runs from the left (what the model states)
-            nfine = rng.choice([3, 4, 5, 6])
-            el = rng.choice([0, 0, 1, 2])
-            eu = rng.choice([0, 0, 1, 2])
-            while nfine + el + eu > 8:
-                el, eu = max(0, el - 1), max(0, eu - 1)
+            # sizes on both sides of 8 and of 128 spacings: numpy.mean sums pairwise (all three regimes of the model)
+            nfine = rng.choice([3, 4, 6, 9, 17, 40, 100, 140]) if i % 4 else rng.choice([100, 127, 129, 135])
+            el = rng.choice([0, 0, 1, 3])
+            eu = rng.choice([0, 0, 1, 3])
             pc = fine_curve(rng, nfine + el + eu)
             atol = rng.choice([1e-3, 1e-6, 1e-9, 1e-12, 1e-16])
             maxits = rng.choice([1, 2, 5, 9, 12, 30])
